@@ -99,7 +99,7 @@ def inlineFeatB (K : Consts) (ts : TypeSystem) (hp : Heap) (o : Obj) (f : Featur
         inlListB hp (fun hs => hs.all (isRefOkV hp)) v)
 
 def nameOkB (f : Feature) : Bool :=
-  decide (f.reserved = false) && decide (f.name ≠ "xmiID") && decide (f.name ≠ "type") && decide (f.name ≠ "self") &&
+  decide (ResOk f) && decide (f.name ≠ "xmiID") && decide (f.name ≠ "type") && decide (f.name ≠ "self") &&
   decide (f.name ≠ ID) && decide (f.name ≠ "sofa")
 
 def collFeatB (K : Consts) (ts : TypeSystem) (c : Cas) (ci : Nat) (hp : Heap) (isAnn : Bool) (o : Obj) (f : Feature) :
